@@ -157,7 +157,9 @@ Definition judge_edit (dom : bool) (model : res utree) (oracle : utree -> option
         else if dom then VOracle ("refused on an input of the property's domain: " ++ gerr)
         else VOk true (tag ++ ":err")
       | Ok t' =>
-        if negb (String.eqb gerr "") then VCorr ("implementation refuses: " ++ gerr ++ " / model: " ++ show_utree t')
+        if negb (String.eqb gerr "") then
+          (if dom then VOracle ("refused on an input of the property's domain: " ++ gerr ++ " [the model accepts]")
+           else VCorr ("implementation refuses: " ++ gerr ++ " / model: " ++ show_utree t'))
         else match get_tree "tree" o with
              | None => VBad "no tree in observation"
              | Some g =>
@@ -209,33 +211,45 @@ Definition judge_graft (c o : sexp) : verdict :=
   | _, _, _, _ => VBad "undecodable case"
   end.
 
-(** every group must have exactly one name among the tips; all other names are new, distinct,
-    and no node of the tree carries them *)
-Definition groups_ok (t : utree) (groups : list (list string)) : bool :=
-  let old := leaves t in
-  let news := flat_map (fun g => filter (fun a => negb (smem a old)) g) groups in
-  forallb (fun g => Nat.eqb (length (filter (fun a => smem a old) g)) 1) groups &&
-  nodup_sorted (ssort news) &&
-  nodup_sorted (ssort (flat_map (fun g => filter (fun a => smem a old) g) groups)) &&
-  forallb (fun a => negb (String.eqb a "")) (news ++ old) &&
-  nodup_sorted (ssort (filter (fun a => negb (String.eqb a "")) (map uname (nodes t)) ++ news)).
+(** the request as the property reads it: the names known so far are the tips of the tree and
+    the names added by earlier groups (a group may be anchored on a tip that an earlier group
+    added); every group must have exactly one known member, its other names are new, distinct
+    and not empty.  Result: the names to add and, for each of them, its model. *)
+Fixpoint groups_scan (known : list string) (groups : list (list string))
+  : option (list string * list (string * string)) :=
+  match groups with
+  | [] => Some ([], [])
+  | g :: r =>
+    let ex := filter (fun a => smem a known) g in
+    let nw := filter (fun a => negb (smem a known)) g in
+    match ex with
+    | [anchor] =>
+      if nodup_sorted (ssort nw) && forallb (fun a => negb (String.eqb a "")) g
+      then match groups_scan (known ++ nw) r with
+           | Some (a, ps) => Some (nw ++ a, map (fun x => (anchor, x)) nw ++ ps)%list
+           | None => None
+           end
+      else None
+    | _ => None
+    end
+  end.
 
 Definition judge_insert (c o : sexp) : verdict :=
   match get_tree "tree" c, (x <- get "groups" c ;; dec_list dec_strings x), get_bool "idx" c with
   | Some t, Some groups, Some has =>
     let old := ssort (leaves t) in
-    let news := flat_map (fun g => filter (fun a => negb (smem a old)) g) groups in
-    let dom := in_dom t && has && groups_ok t groups in
+    let scan := groups_scan (leaves t) groups in
+    let news := match scan with Some (a, _) => a | None => [] end in
+    let pairs := match scan with Some (_, ps) => ps | None => [] end in
+    let dom := in_dom t && has && (match scan with Some _ => true | None => false end) &&
+               forallb (fun a => negb (String.eqb a "")) old &&
+               nodup_sorted (ssort (filter (fun a => negb (String.eqb a "")) (map uname (nodes t)) ++ news)) in
     judge_edit dom (insert_identical t (idx_of has t) groups)
                (fun g => first_some
                   [(if sset_eqb (ssort (leaves g)) (ssort (old ++ news)) then None
                     else Some "the tips are not the old ones plus the requested ones");
                    (if same_dists t g old then None else Some "a path length between two pre-existing tips changed");
-                   (if forallb (fun grp =>
-                        match filter (fun a => smem a old) grp with
-                        | [m] => forallb (fun a => oq_eqb (dist_opt len0 g m a) (Some 0%Q)) grp
-                        | _ => true
-                        end) groups then None
+                   (if forallb (fun p => oq_eqb (dist_opt len0 g (fst p) (snd p)) (Some 0%Q)) pairs then None
                     else Some "an identical tip is not at distance zero from its model")])
                t "insert" o
   | _, _, _ => VBad "undecodable case"
